@@ -11,6 +11,7 @@ From RM Require Import C08.Model C08.Proofs C11.Model C11.Proofs1 C11.Proofs2 C1
 From RM Require C09.Model C09.Grammar C09.Driver C11.Text C11.Text2 C11.Text3 C11.Driver C11.Enc.
 From RM Require Import C11.Proofs8 C11.Proofs9 C11.Proofs10.
 From RM Require Gen.C11Sym C11.Tie.
+From RM Require C11.Prims Gen.C11Src C11.SrcTie.
 Open Scope Z_scope.
 
 (* Parsing and symbolication never panic (overflow in `address + module.base_address()`,
@@ -811,4 +812,66 @@ Proof.
   split.
   - unfold wf_module, u64, two64. repeat (first [apply Forall_nil | apply Forall_cons | split]); cbn; lia.
   - eexists. split; [vm_compute; reflexivity|]. repeat split; vm_compute; reflexivity.
+Qed.
+
+(* ------------------------------------------------------------------------------------------------------------
+   Round 5, second pass: the lookup functions are COMPILED from the Rust source (translate/c11_compile.py ->
+   Gen/C11Src.v, vocabulary C11/Prims.v) — not a template with holes: the bodies of Function::get_inlinee_at_depth,
+   get_outermost_sourceloc, get_innermost_sourceloc, SymbolFile::find_nearest_public and SymbolFile::fill_symbol
+   (with its `for depth in 1..` loop as a generated Fixpoint over fuel, the FrameSymbolizer callbacks as updates
+   of a sym_out, `return` / `?` / `break` as early exits, u64 `+` / `-` as chk_add / chk_sub, `v[i]` and
+   `index - 1` as panic sites) are parsed and translated statement by statement. *)
+
+(* every compiled function equals the hand-written model for ALL arguments (results and panics alike); for
+   fill_symbol: whenever the fuel covers the INLINE ranges of the function found and the model does not run out of
+   its own fuel.  The compiled `instr - mbase` (a u64 subtraction the model writes as plain `-`) cannot trap. *)
+Theorem c11_compiled_source_tie :
+  (forall p f depth addr, C11Src.src_get_inlinee_at_depth p f depth addr =
+     do r <- get_inlinee_at_depth (fn_inls f) depth addr; Ret (option_map SrcTie.giad_tuple r)) /\
+  (forall p f addr, C11Src.src_get_outermost_sourceloc p f addr =
+     do r <- get_outermost_sourceloc f addr; Ret (option_map SrcTie.outer_tuple r)) /\
+  (forall p f addr, C11Src.src_get_innermost_sourceloc p f addr =
+     Ret (option_map (fun l => (l_file l, l_line l, l_addr l)) (rm_get (fn_lines f) addr))) /\
+  (forall p st addr, C11Src.src_find_nearest_public p st addr = Ret (find_nearest_public (st_publics st) addr)) /\
+  (forall p st addr f fuel depth frame org, C11Src.src_fill_symbol_loop p fuel st addr f depth frame org =
+     do chain <- inline_loop p fuel (fn_inls f) addr depth;
+     Ret (SrcTie.add_frames frame (SrcTie.emit_calls st org chain), SrcTie.last_org org chain)) /\
+  (forall p fuel st mbase instr, 0 <= mbase -> instr < two64 ->
+     (forall f, rm_get (st_funcs st) (instr - mbase) = Some f -> (length (fn_inls f) <= fuel)%nat) ->
+     fill_symbol p st mbase instr <> OutOfFuel ->
+     C11Src.src_fill_symbol p fuel st mbase instr = fill_symbol p st mbase instr).
+Proof. exact SrcTie.compiled_source_tie. Qed.
+Print Assumptions c11_compiled_source_tie.
+
+(* hence, for every well-formed file: the function compiled from the source of SymbolFile::fill_symbol, run on the
+   parsed table with any fuel that covers the table's FUNCs, IS [symbolize] (so c11_func_sound, c11_public_rule,
+   c11_line_sound, c11_inline_chain, c11_equals_linear_scan ... are theorems about the compiled source), and it
+   returns: no overflow trap, no index panic, the loop ends.  Prims.src_fuel st is such a fuel. *)
+Theorem c11_compiled_fill_symbol : forall p fuel rf st mbase instr,
+  wf_file rf -> 0 <= mbase -> instr < two64 ->
+  build_symtab rf = Ret st -> SrcTie.fuel_covers st fuel ->
+  C11Src.src_fill_symbol p fuel st mbase instr = symbolize p rf mbase instr /\
+  exists o, C11Src.src_fill_symbol p fuel st mbase instr = Ret o.
+Proof. exact SrcTie.src_symbolize. Qed.
+Print Assumptions c11_compiled_fill_symbol.
+
+Theorem c11_compiled_driver_fuel : forall st, SrcTie.fuel_covers st (Prims.src_fuel st).
+Proof. exact SrcTie.src_fuel_covers. Qed.
+Print Assumptions c11_compiled_driver_fuel.
+
+(* the compiled function on nv_file2: two inline frames at 21 (lookups at depth 1 and 2: fuel 2 is needed and
+   fuel 1 is not enough — the fuel hypothesis is not idle), a line without inlines at 45, the PUBLIC fallback at 95 *)
+Example c11_nonvacuous_compiled :
+  exists st, build_symtab nv_file2 = Ret st /\ SrcTie.fuel_covers st 3 /\ Prims.src_fuel st = 3%nat /\
+    C11Src.src_fill_symbol Debug 3 st 4096 (4096 + 21) =
+      Ret (mk_out (Some (5, 4112, 12)) (Some (7, 70, 4112)) [(21, Some 7, Some 71); (22, Some 7, Some 10)]) /\
+    C11Src.src_fill_symbol Debug 2 st 4096 (4096 + 21) = C11Src.src_fill_symbol Debug 3 st 4096 (4096 + 21) /\
+    C11Src.src_fill_symbol Debug 1 st 4096 (4096 + 21) = OutOfFuel /\
+    C11Src.src_fill_symbol Release 3 st 4096 (4096 + 45) = Ret (mk_out (Some (5, 4112, 4)) (Some (7, 11, 4128)) []) /\
+    C11Src.src_fill_symbol Release 3 st 4096 (4096 + 95) = Ret (mk_out (Some (9, 4186, 4)) None []) /\
+    C11Src.src_fill_symbol Release 3 st 4096 4095 = Ret empty_out.
+Proof.
+  eexists. split; [vm_compute; reflexivity|]. split.
+  - intros r f Hin. cbn in Hin. repeat (destruct Hin as [E|Hin]; [inversion E; subst; cbn; lia|]). destruct Hin.
+  - repeat split; vm_compute; reflexivity.
 Qed.
